@@ -709,7 +709,13 @@ func (ac *asmCtx) asmHint(a *astate, h *Hint, where string) {
 			nv := ac.fc.fresh("asm_"+arg.Name+"_cut", SInt)
 			a.regs[arg.Name] = aval{t: nv}
 		}
+		keepCF := a.cf != nil && exprMentions(factE, "CF")
 		a.cf, a.zf, a.lt = nil, nil, nil
+		if keepCF {
+			// the fact speaks about the carry flag: it survives the cut as a fresh boolean
+			// constrained by the fact only
+			a.cf = ac.fc.fresh("asm_CF_cut", SBool)
+		}
 		keep := a.headPC
 		if h.E.Name == "forget0" {
 			keep = ac.entryPC // after a loop: back to the hypotheses of the function entry
@@ -748,6 +754,21 @@ func (ac *asmCtx) asmHint(a *astate, h *Hint, where string) {
 	if len(a.s.pc) > n0 {
 		a.cutFacts = append(a.cutFacts, a.s.pc[n0:]...)
 	}
+}
+
+func exprMentions(e *Expr, name string) bool {
+	if e == nil {
+		return false
+	}
+	if e.Kind == "ident" && e.Name == name {
+		return true
+	}
+	for _, a := range e.Args {
+		if exprMentions(a, name) {
+			return true
+		}
+	}
+	return false
 }
 
 // regEnv builds the spec environment at an assembly program point: parameters by name,
